@@ -311,6 +311,7 @@ func runC12(c *Ctx) {
 
 	c12TerminalOnce(c)
 	c12PendingQueue(c)
+	c12FormatConstant(c)
 }
 
 // reviewedWriterOp: table of accepted operations, one line of reason each.
@@ -374,7 +375,20 @@ func c12TerminalOnce(c *Ctx) {
 	if do := c.fn(pkgTransport, "SSE.Do"); do != nil {
 		isFprintConst := func(in ssa.Instruction, substr string) bool {
 			call, ok := in.(*ssa.Call)
-			if !ok || !strings.HasPrefix(an.CalleeOf(call).FullName(), "fmt.Fprint") {
+			if !ok {
+				return false
+			}
+			if !strings.HasPrefix(an.CalleeOf(call).FullName(), "fmt.Fprint") {
+				// a same-package write helper handed the marker as a constant (c.writef(w, "event: complete\n\n"))
+				h := call.Call.StaticCallee()
+				if h == nil || h.Pkg == nil || h.Pkg.Pkg.Path() != pkgTransport || !helperTouchesWriter(h, 0) {
+					return false
+				}
+				for _, a := range call.Call.Args {
+					if s, ok := an.ConstString(an.Strip(a)); ok && strings.Contains(s, substr) {
+						return true
+					}
+				}
 				return false
 			}
 			for _, a := range call.Call.Args {
